@@ -42,3 +42,10 @@ claim("C50", "MIR guard-dominance with comparison-operand provenance + argument-
       "blueprints as the only exemption constants; globalize creates the global node only after reservation/package/blueprint checks; "
       "new_object takes the package from the current actor; every actor_* state API addresses the node resolved from the actor; the WASM "
       "host surface calls no kernel primitive directly. Kernel visibility over arbitrary reference flows is not decided.")
+
+claim("C02", "MIR ordering + guard-dominance (predicate-restricted) + who-may tables + variant-arm agreement",
+      "Decides: in create_commit_receipt the revert (track + royalty) lies on every failure path before any post-execution writer and is never "
+      "reachable after one; failed transactions keep only FORCE_WRITE events; revert_writes resets every write-carrying variant with no catch-all; "
+      "FORCE_WRITE flags are confined to the audited functions and rejected by the openers except for the XRD vault blueprint; delete_partition / "
+      "force_write / Track::finalize / CommitResult have only their audited callers; Reject/Abort arms cannot reach the commit path; Commit is "
+      "constructed only when the loan is repaid. The numerical content of the fee writes is not decided.")
